@@ -5,6 +5,7 @@ Driver for C35 (exploration).  One line per workload run in the race-detector wo
 
   workload build-basic|build-compact cores=K n=N cw=C seed=S      => ok | mismatch:<query> | race | fatal | hang | crash
   workload query-basic|query-compact|query-overlay g=G n=N q=Q seed=S  => (same)
+  workload parse g=G n=N q=Q seed=S                                    => (same)
 
 The model's answer is always `ok`: the lock-discipline theorems (`B6.Props.C35`) say the cache cells are
 race-free and transparent, the stage theorem that the two-stage `Finish` has no conflicting workers, so a
@@ -16,7 +17,7 @@ open B6.Driver
 namespace B6.Driver.C35
 
 def knownWorkloads : List String :=
-  ["build-basic", "build-compact", "query-basic", "query-compact", "query-overlay"]
+  ["build-basic", "build-compact", "query-basic", "query-compact", "query-overlay", "parse"]
 
 def wellFormed (ws : List String) : Bool :=
   match ws with
